@@ -76,3 +76,32 @@ def _mk_math():
 MATHFNS = _mk_math()
 FUNCS.update(MATHFNS)
 OBJS["math"] = _Obj("math", **MATHFNS)
+
+
+class Word:
+    """Element of a free monoid: * is concatenation, the number 1 is neutral, nothing else
+    is defined.  Mirrors the "word" values of spec/PyNum.tla."""
+
+    def __init__(self, letters):
+        self.letters = tuple(letters)
+
+    def __mul__(self, other):
+        if isinstance(other, Word):
+            return Word(self.letters + other.letters)
+        if isinstance(other, int) and not isinstance(other, bool) and other == 1:
+            return self
+        return NotImplemented
+
+    def __rmul__(self, other):
+        if isinstance(other, int) and not isinstance(other, bool) and other == 1:
+            return self
+        return NotImplemented
+
+    def __eq__(self, other):
+        return isinstance(other, Word) and self.letters == other.letters
+
+    def __hash__(self):
+        return hash(self.letters)
+
+    def __repr__(self):
+        return "Word(%s)" % "".join(self.letters)
